@@ -35,10 +35,41 @@ def same_num(a, b):
     return lift(a) == lift(b)
 
 
+def draw_range(p):
+    """(min, max) of a polynomial that is affine in exactly one uniform draw R in [lo0, hi0] with a coefficient that does not
+    depend on other draws: (p[R := lo0], p[R := hi0]); None when p is not of that form"""
+    from ..alg import Poly, lift
+    p = lift(p)
+    rs = [a for a in p.atoms() if a[0] == 'R']
+    if len(set(rs)) != 1:
+        return None
+    r = rs[0]
+
+    def subst(val):
+        out = Poly()
+        for mono, c in p.t.items():
+            term = Poly.const(c)
+            for a, e in mono:
+                if a == r:
+                    if e != 1:
+                        return None
+                    term = term * lift(val)
+                else:
+                    term = term * Poly({((a, e),): 1})
+            out = out + term
+        return out
+    a, b = subst(r[2]), subst(r[3])
+    if a is None or b is None:
+        return None
+    return a, b
+
+
 def expect_draw(p, lo, hi, what):
-    k = draw_of(p)
-    if k[0] != 'draw' or not same_num(k[1], lo) or not same_num(k[2], hi):
-        raise Violation(what, f"{what} is {p}", f"a uniform draw in [{lo}, {hi}]")
+    """p is uniformly distributed on exactly [lo, hi]: a draw with these bounds, or an affine image lo + (hi - lo) * U(0, 1) etc."""
+    from ..alg import lift
+    rg = draw_range(p)
+    if rg is None or {str(rg[0]), str(rg[1])} != {str(lift(lo)), str(lift(hi))}:
+        raise Violation(what, f"{what} is {p}" + (f" (ranging over [{rg[0]}, {rg[1]}])" if rg else ""), f"a uniform draw in [{lo}, {hi}]")
 
 
 def expect_axes(v, axes, what):
